@@ -290,7 +290,9 @@ PROPS["C10"] = dict(
     technique="Lean 4 proof (equivariance of the consequence operator, lifted to least fixpoints, reducts and the concrete enumerations) + metamorphic correspondence runs against the order-independent specification",
     jobs=[Job("adf", 500, 20000, size=6, size_thorough=7, extra=("present",), relevant=heads("present", "presented", "ordercheck"), nontrivial=nt_adf),
           Job("adf", 40, 1200, size=5, extra=("cli",), timeout=900, needs_bins=True, relevant=heads("cli", "clirun", "clicheck"),
-              nontrivial=lambda st: int(st.get("n", 0)) >= 2, label="cli-sorting")],
+              nontrivial=lambda st: int(st.get("n", 0)) >= 2, label="cli-sorting"),
+          Job("adf", 60, 2000, size=90, size_thorough=130, extra=("presentwide",), relevant=heads("present", "presented", "ordercheck"),
+              nontrivial=lambda st: int(st.get("n", 0)) >= 65, label="wide-presentations")],
     rule=ADF_GEN + "5 presentations per ADF (fact permutation x sorting mode x label class x layout); answers as statement->value maps vs Spec on the original; order checks; non-trivial = distinct ADF with >= 2 statements and >= 5 nodes",
     assumptions=["labels alphanumeric (quoted labels are C08/C15)"],
 )
